@@ -770,6 +770,8 @@ impl<'r> Eng<'r> {
             // a failed store is judged by the before/after snapshot (C12); a disagreement with the
             // model seen here was there before the call
             (StoreErr, _) => vec![],
+            // (C11: deletions hold "in every continuation of the history (... reopen, rebuild)")
+            (Reopen, Aspect::Marker) | (Rebuild, Aspect::Marker) | (Reopen, Retr) | (Rebuild, Retr) => vec!["C16", "C11"],
             (Reopen, _) | (Rebuild, _) | (Open, _) => vec!["C16"],
             (Remove, Stats) | (Vanish, Stats) | (Remove, Query) | (Vanish, Query) => vec!["C18", "C17"],
             (Remove, _) | (Vanish, _) => vec!["C18"],
